@@ -3,6 +3,7 @@
    number of threads, any schedule (list of thread ids), any capacity >= 1, sequentially
    consistent interleaving. *)
 From V Require Import model.Base model.Conc model.Events model.SpscQueue proofs.SpscQueueProofs.
+From V Require model.OverflowQueue proofs.OverflowQueueProofs.
 Open Scope N_scope.
 
 (* index_queue.rs / spsc/queue.rs: in every reachable state, pushed = popped ++ content and
@@ -51,3 +52,66 @@ Proof.
   cbv zeta. split; [exists ex_sched; reflexivity|]. vm_compute. repeat split; eauto.
 Qed.
 Print Assumptions c03_spsc_nonvacuous.
+
+(* ---------------- safely_overflowing_index_queue.rs ---------------- *)
+Module OQ.
+Import V.model.OverflowQueue V.proofs.OverflowQueueProofs.
+
+(* for every capacity (0 included), any number of threads, every schedule: every pushed value
+   is exactly once either removed from the head (by the consumer, or handed back to the
+   producer as evicted) or still queued, removal order = push order; at most capacity values
+   are queued, capacity + 1 only inside a push between publication and eviction attempt *)
+Theorem c03_oq_conservation : forall c progs g ls,
+  reachable step (init c progs) (g, ls) ->
+  pushed g = map fst (removed g) ++ content g /\
+  (length (content g) <= N.to_nat c + (if ovf g then 1 else 0))%nat.
+Proof. exact oq_conservation. Qed.
+
+Theorem c03_oq_bounded_when_producer_idle : forall c progs g ls t,
+  reachable step (init c progs) (g, ls) ->
+  holdsP (ls t) = true -> at_pc (ls t) = Idle -> (length (content g) <= N.to_nat c)%nat.
+Proof. exact oq_bounded_when_producer_idle. Qed.
+
+Theorem c03_oq_roles_exclusive : forall c progs g ls t t',
+  reachable step (init c progs) (g, ls) ->
+  (holdsP (ls t) = true -> holdsP (ls t') = true -> t = t') /\
+  (holdsC (ls t) = true -> holdsC (ls t') = true -> t = t').
+Proof. exact oq_roles_exclusive. Qed.
+
+Theorem c03_oq_pop_returns_head : forall c progs g ls t r v,
+  reachable step (init c progs) (g, ls) ->
+  at_pc (ls t) = PopCas r v -> rp g = r -> hd_error (content g) = Some v.
+Proof. exact oq_pop_returns_head. Qed.
+
+Theorem c03_oq_evicted_value_stable : forall c progs g ls t r x,
+  reachable step (init c progs) (g, ls) ->
+  at_pc (ls t) = PushReadOld r x -> nthN (slots g) (r mod m_of g) 0 = x.
+Proof. exact oq_evicted_value_stable. Qed.
+
+Theorem c03_oq_write_slot_free : forall c progs g ls t v w r k,
+  reachable step (init c progs) (g, ls) ->
+  at_pc (ls t) = PushWrite v w r -> rp g <= k -> k < wp g -> w mod m_of g <> k mod m_of g.
+Proof. exact oq_write_slot_free. Qed.
+
+(* non-vacuity: capacity 1, the producer overflows while the consumer is inside pop: the
+   consumer's CAS loses, the producer evicts 7, the consumer re-checks and gets 8 *)
+Definition ex_progs (t : nat) : list oop :=
+  match t with
+  | O => [OAcqP; OPush 7; OPush 8]
+  | S O => [OAcqC; OPop]
+  | _ => []
+  end.
+Definition ex_sched : list nat := [0;0;0;0;0; 1;1;1;1; 0;0;0;0;0;0; 1;1;1;1]%nat.
+Example c03_oq_nonvacuous :
+  let c := fst (run step ex_sched (init 1 ex_progs)) in
+  reachable step (init 1 ex_progs) c /\
+  pushed (fst c) = [7; 8] /\ removed (fst c) = [(7, false); (8, true)] /\ content (fst c) = [].
+Proof. cbv zeta. split; [exists ex_sched; reflexivity|]. vm_compute. auto. Qed.
+End OQ.
+Print Assumptions OQ.c03_oq_conservation.
+Print Assumptions OQ.c03_oq_bounded_when_producer_idle.
+Print Assumptions OQ.c03_oq_roles_exclusive.
+Print Assumptions OQ.c03_oq_pop_returns_head.
+Print Assumptions OQ.c03_oq_evicted_value_stable.
+Print Assumptions OQ.c03_oq_write_slot_free.
+Print Assumptions OQ.c03_oq_nonvacuous.
